@@ -305,6 +305,11 @@ Theorem C13_source_update_snr : forall added c x bw s,
   g_update1 added c = update1 added c /\ g_snr_sum x bw added ref_bw = snr_sum x bw added /\ g_contribution s = s.
 Proof. intros. split; [apply gen_update1|]. split; [apply gen_snr_sum | apply gen_contribution]. Qed.
 Print Assumptions C13_source_update_snr.
+(* Roadm.set_roadm_paths: each add / drop stage of the default model is worth half of 1/add_drop_osnr *)
+Theorem C13_source_add_drop_stage : forall ad,
+  g_add_drop_stage ad = add_drop_stage ad /\ add_drop_stage ad + add_drop_stage ad == ad.
+Proof. intros. split; [apply gen_add_drop_stage | apply add_drop_total]. Qed.
+Print Assumptions C13_source_add_drop_stage.
 (* json_io.Transceiver.__init__: (0, 0) inserted when every abscissa is > 0, then sorted *)
 Theorem C13_source_normalise : forall raw, g_normalise raw = normalise raw.
 Proof. exact gen_normalise. Qed.
